@@ -4,8 +4,9 @@ from .. import forkrun, tracecheck
 
 COMPOUNDS = ["H2O@1", "NaCl@2.16", "D2O@1n", "Fe2O3@5.24", "C12H22O11@1.59", "SiO2@2.2", "Au", "Co", "Si", "Cr", "Fe", "Ni",
              "CaCO3", "C2H6O", "Ca{2+}Cl{-}2@2.15", "Fe[56]2O3@5", "H2O", "Ti", "Al2O3@3.95", "2H2O@1", "(H2O)10@1",
-             "WC@15.6", "W", "V2O5@3.36", "V", "Mo", "Mg"]
-WITH_DENS = [c for c in COMPOUNDS if "@" in c or c in ("Au", "Co", "Si", "Cr", "Fe", "Ni", "Ti", "W", "V", "Mo", "Mg")]
+             "WC@15.6", "W", "V2O5@3.36", "V", "Mo", "Mg",
+             "2Fe", "(Ni)2", "FeFe", "3Si2"]            # one element written with a count, a group, twice: it still has the element's density
+WITH_DENS = [c for c in COMPOUNDS if "@" in c or c in ("Au", "Co", "Si", "Cr", "Fe", "Ni", "Ti", "W", "V", "Mo", "Mg", "2Fe", "(Ni)2", "FeFe", "3Si2")]
 WKW = ["wt%", "%wt", "w%", "%w", "weight%", "%weight", "mass%", "%mass", "m%", "%m"]
 VKW = ["vol%", "%vol", "v%", "%v", "volume%", "%volume"]
 MASSU = ["kg", "g", "mg", "ug", "ng"]
